@@ -594,7 +594,7 @@ func (p *c18) Shrink(scAny any) []any {
 
 func (p *c18) Info() PropInfo {
 	return PropInfo{
-		Rule: "seeded search: message with generated Subject/custom header/Organization/display name values (word lengths 0..300, runs of blanks, leading/trailing blanks, non-ASCII needing RFC 2047), 1..2 body parts and 0..2 files with content lengths around multiples of 3/57/76 (+-3) and random, CRLF / bare LF / bare CR / trailing-blank line ends, all transfer encodings, on single-level shapes a caller-chosen boundary of 1..70 characters, file sources writer/read-seeker/fs.FS; each message is rendered under two independently drawn chunkings per producer {single write, 1 byte, 3, 57, 76, primes and off-by-one sizes, random mixes}; every run is non-trivial; distinct = distinct (shape signature, output length, number of MIME leaves)",
+		Rule: "seeded search: message with generated Subject/custom header/Organization/display name values (word lengths 0..300, runs of blanks, leading/trailing blanks, non-ASCII needing RFC 2047), 1..2 body parts and 0..2 files with content lengths around multiples of 3/57/76 (+-3) and random, CRLF / bare LF / bare CR / trailing-blank line ends, all transfer encodings, on single-level shapes a caller-chosen boundary of 1..70 characters, a sixth of the renders after a broken-off render of the same shape, an eighth through WriteToFile over an older and longer file, file sources writer/read-seeker/fs.FS; each message is rendered under two independently drawn chunkings per producer {single write, 1 byte, 3, 57, 76, primes and off-by-one sizes, random mixes}; every run is non-trivial; distinct = distinct (shape signature, output length, number of MIME leaves)",
 		Assumptions: []string{"8bit and 7bit bodies are passed through by contract and not judged for line length (7bit parts are QP-encoded by go-mail and then carry that discipline only if labelled so)",
 			"a header line longer than 78 is accepted when, trimmed, it contains no blank (single token)",
 			"header values are compared after RFC 2047 decoding with mime.WordDecoder and whitespace normalisation"},
